@@ -539,7 +539,9 @@ extern "C" off_t __wrap_lseek (int fd, off_t off, int whence)
 	if (d->f->is_fifo) { errno = ESPIPE ; tr_io (IO_SEEK, off, whence, -1, 0) ; return -1 ; }
 	int64_t base = whence == SEEK_SET ? 0 : whence == SEEK_CUR ? d->off : whence == SEEK_END ? (int64_t) d->f->data.size () : -1 ;
 	int64_t np ;
-	if (base < 0 || __builtin_add_overflow (base, (int64_t) off, &np) || np < 0)
+	// like the kernel: EINVAL for a resulting offset that is negative or beyond the largest file the file system supports
+	// (s_maxbytes; 16 TiB - 4 KiB on the ext file systems, which is what the pass-through validation runs on)
+	if (base < 0 || __builtin_add_overflow (base, (int64_t) off, &np) || np < 0 || np > 0xFFFFFFFF000LL)
 	{	g_os->st.odd_requests ++ ; errno = EINVAL ; tr_io (IO_SEEK, off, whence, -1, 0) ; return -1 ; }
 	d->off = np ;
 	tr_io (IO_SEEK, off, whence, np, 0) ;
